@@ -153,7 +153,7 @@ def case_cumint(W, cfg):
     a = W.data("a", (2, N))
     da = xr.DataArray(a, dims=("yc", "xc"))
     ci = grid.cumint(da, "X", to=to, boundary="fill", fill_value=0)
-    am = np.empty((2, N), dtype=a.dtype)
+    am = np.empty((2, N), dtype=object if W.sym else float)
     for j in range(2):
         for i in range(N):
             am[j, i] = a[j, i] * dx[i]
@@ -164,6 +164,20 @@ def case_cumint(W, cfg):
         W.equal("cumint-last=integrate:" + to, ci.isel({ci.dims[1]: -1}).data, it.data)
         tot = [sum((a[j, i] * dx[i] for i in range(1, N)), a[j, 0] * dx[0]) for j in range(2)]
         W.equal("integrate=sum(data*metric):" + to, it.data, tot)
+    # the metric in force is the one registered *now*: overwrite it and integrate again on the same Grid
+    dx2 = W.data("dxnew", (N,), gen=pos)
+    if W.sym:
+        for m in dx2:
+            W.assume(m.t > 0)
+    grid._ds["dxnew"] = (("xc",), dx2)
+    grid.set_metrics(("X",), "dxnew", overwrite=True)
+    ci_new = grid.cumint(da, "X", to=to, boundary="fill", fill_value=0)
+    am2 = np.empty((2, N), dtype=object if W.sym else float)
+    for j in range(2):
+        for i in range(N):
+            am2[j, i] = a[j, i] * dx2[i]
+    W.equal("cumint-after-metric-overwrite:" + to, ci_new.data, apply_along(am2, 1, lambda v: spec_cumsum(v, "center", to, N, "fill", 0.0)), record=False)
+    grid.set_metrics(("X",), "dx", overwrite=True)
     if to == "outer":
         ci2 = grid.cumint(da, ["X", "Y"], to="outer", boundary="fill", fill_value=0)
         it2 = grid.integrate(da, ["X", "Y"])
